@@ -301,7 +301,11 @@ func runConcOn(prop, tier string, sc *core.Scratch, ev *core.Evidence, rep *core
 		wg.Add(1)
 		go func(i int) {
 			defer wg.Done()
-			r, stderr, err := RunDriver[concResult](bin, dir, "sched", chunks[i], 40*time.Minute)
+			limit := 40 * time.Minute
+			if tier == "thorough" {
+				limit = 150 * time.Minute // a loaded machine must not turn the deep tier into an infrastructure failure
+			}
+			r, stderr, err := RunDriver[concResult](bin, dir, "sched", chunks[i], limit)
 			mu.Lock()
 			defer mu.Unlock()
 			if err != nil || len(r) != len(chunks[i]) {
